@@ -451,3 +451,19 @@ fn t4_single_skip_single_single() {
 fn t3_single_single_single() {
     run_n([B_SINGLE, B_SINGLE, B_SINGLE, 0], [1, 1, 1, 0], 3, 2, 2, false);
 }
+
+// @verif family=TBMC hook=1 ignorefn=TProbeA thorough=C01,C04,C05,C09 timeout=5400 mem=24
+// @bounds kind=ConIterOfIter<usize,TProbe*> len<=2; 2 threads x 2 next_id_and_value(); <=7 events per thread + solo continuation; all interleavings
+#[kani::proof]
+#[kani::unwind(12)]
+fn t2_single2_single2() {
+    run2([B_SINGLE, B_SINGLE], [2, 2], 2, 2, false);
+}
+
+// @verif family=TBMC hook=1 ignorefn=TProbeA thorough=C06,C09 timeout=5400 mem=24
+// @bounds kind=ConIterOfIter<usize,TProbe*> len<=2; thread 0: 2 x next_id_and_value(), thread 1: skip_to_end then has_more (the skipper is the last thread); <=7 events per thread + solo; all interleavings
+#[kani::proof]
+#[kani::unwind(12)]
+fn t2_single_skip() {
+    run2([B_SINGLE, B_SKIP | B_LEN], [2, 2], 2, 2, false);
+}
